@@ -53,6 +53,7 @@ class error_997_visitor(error_visitor.error_visitor):
         self.gs_seg = None
         self.st_control_num = 0
         self.st_loop_count = 0
+        self.ak4_count = 0
 
     def visit_root_pre(self, errh):
         """
@@ -350,6 +351,7 @@ class error_997_visitor(error_visitor.error_visitor):
         """
         #logger.debug('visit_deg: AK3 - ')
         #seg_base = ['AK3', err_seg.seg_id, '%i' % err_seg.seg_count]
+        self.ak4_count = 0
         valid_AK3_codes = ('1', '2', '3', '4', '5', '6', '7', '8')
         seg_base = pyx12.segment.Segment('AK3', '~', '*', ':')
         # the identifier and the loop id come from the input: without this
@@ -417,6 +419,10 @@ class error_997_visitor(error_visitor.error_visitor):
         seg_str = seg_base.format('~', '*', ':')
         for (err_cde, err_str, bad_value) in err_ele.errors:
             if err_cde in valid_AK4_codes:
+                if self.ak4_count >= 99:
+                    # an AK3 takes 99 AK4 at most
+                    return
+                self.ak4_count += 1
                 seg_data = pyx12.segment.Segment(seg_str, '~', '*', ':')
                 seg_data.set('AK403', err_cde)
                 if bad_value and not self._contains_delimiter(bad_value):
